@@ -21,6 +21,7 @@ import (
 	"github.com/grafana/metrictank/schema/msg"
 	"pgregory.net/rapid"
 
+	"verifharness/internal/ep"
 	"verifharness/internal/ev"
 	"verifharness/internal/h"
 )
@@ -144,7 +145,14 @@ func TestPropGrafanaNet(t *testing.T) {
 		for i := 0; i < nfail; i++ {
 			st.script = append(st.script, rapid.SampledFrom([]string{"200", "200", "400", "503", "503", "hang", "reset"}).Draw(t, "outcome"))
 		}
-		st.srv = httptest.NewServer(http.HandlerFunc(st.handler))
+		// a listener on this process's private loopback address: a route of an earlier case that is still retrying
+		// (or one of another check process) must not reach this case's server through a recycled port
+		st.srv = httptest.NewUnstartedServer(http.HandlerFunc(st.handler))
+		if ln, lerr := net.Listen("tcp", ep.LoopIP()+":0"); lerr == nil {
+			st.srv.Listener.Close()
+			st.srv.Listener = ln
+		}
+		st.srv.Start()
 		defer st.srv.Close()
 		cfg, err := route.NewGrafanaNetConfig(st.srv.URL+"/metrics", "apikey", schemasFile, aggFile)
 		if err != nil {
